@@ -15,7 +15,7 @@ CONSTANTS
   Scripts <- NoScripts
 INIT Init
 NEXT NextF
-VIEW ViewH
+VIEW View
 INVARIANTS TypeOK Contig WorkingRetained ReadersRetained CleanIsSaved NotRetainedIsBlank HkFunctional
 PROPERTIES SavedImmutable PruneKeepsRetained OnlyNext SessionDrop
 ACTION_CONSTRAINT EmitEdge
